@@ -80,6 +80,7 @@ def run_case(rs, ctx):
                       with_probs=bool(rs.integers(4) == 0))
     nf0 = int(gen.pick(rs, [2, 3]))
     sh = gen.Shadow(cfg, nf0)
+    sh.vary_nf = True
     prior = gen.gen_ops(rs, cfg, sh, 1, ["fit"], train_rows=(6, 30)) + \
         gen.gen_ops(rs, cfg, sh, int(rs.integers(2, 12)), PRIOR, train_rows=(1, 8))
     if p == "none" and l != "rnd" and not gen.has_probs(cfg) and rs.integers(2):
